@@ -38,7 +38,7 @@ type edit struct {
 }
 
 type stats struct {
-	R1, R2, R2Skipped, R3, R4, R5, R6, R6Skipped, R7 int
+	R1, R2, R2Skipped, R3, R4, R5, R6, R6Skipped, R7, R8 int
 	Files                                            int
 	R2SkippedAt                                      []string
 	R6SkippedAt                                      []string
@@ -52,6 +52,7 @@ var (
 	noR2     bool
 	noR4     bool
 	noR7     bool
+	noR8     bool
 	yieldPkg = map[string]bool{}
 )
 
@@ -66,6 +67,7 @@ func main() {
 	flag.BoolVar(&noR2, "no-r2", false, "skip the map iteration rewrite")
 	flag.BoolVar(&noR4, "no-r4", false, "skip soft yields")
 	flag.BoolVar(&noR7, "no-r7", false, "skip the select rewrite")
+	flag.BoolVar(&noR8, "no-r8", false, "skip the map access tracking rewrite")
 	flag.Parse()
 	pats := flag.Args()
 	if len(pats) == 0 {
@@ -136,7 +138,7 @@ func main() {
 	}
 	out, _ := json.MarshalIndent(map[string]any{"stats": st, "sites": sites}, "", " ")
 	_ = os.WriteFile(filepath.Join(*dir, "simify.json"), out, 0o644)
-	fmt.Printf("simify: files=%d R1=%d R2=%d (skipped %d) R3=%d R4=%d R5=%d R6=%d (skipped %d) R7=%d\n", st.Files, st.R1, st.R2, st.R2Skipped, st.R3, st.R4, st.R5, st.R6, st.R6Skipped, st.R7)
+	fmt.Printf("simify: files=%d R1=%d R2=%d (skipped %d) R3=%d R4=%d R5=%d R6=%d (skipped %d) R7=%d R8=%d\n", st.Files, st.R1, st.R2, st.R2Skipped, st.R3, st.R4, st.R5, st.R6, st.R6Skipped, st.R7, st.R8)
 }
 
 func site(fset *token.FileSet, pos token.Pos) int {
@@ -398,6 +400,84 @@ func rewriteFile(fset *token.FileSet, p *packages.Package, f *ast.File, name str
 		}
 		return true
 	})
+
+	// R8: accesses to maps held in struct fields or package-level variables are
+	// reported to the run-time (lockset tracking): x.f[k] -> simrt.MR(x.f, site)[k],
+	// x.f[k] = v -> simrt.MW(x.f, site)[k] = v, delete(x.f, k), len(x.f)
+	if !noR8 {
+		isSharedMap := func(e ast.Expr) bool {
+			tv, ok := info.Types[e]
+			if !ok || tv.Type == nil {
+				return false
+			}
+			if _, isMap := tv.Type.Underlying().(*types.Map); !isMap {
+				return false
+			}
+			switch x := e.(type) {
+			case *ast.SelectorExpr:
+				if sel := info.Selections[x]; sel != nil {
+					return sel.Kind() == types.FieldVal
+				}
+				// qualified identifier: package-level variable of another package
+				_, isVar := info.Uses[x.Sel].(*types.Var)
+				return isVar
+			case *ast.Ident:
+				v, isVar := info.Uses[x].(*types.Var)
+				return isVar && v.Parent() == p.Types.Scope()
+			}
+			return false
+		}
+		wrap := func(e ast.Expr, write bool) {
+			fn := "simrt.MR("
+			if write {
+				fn = "simrt.MW("
+			}
+			add(off(e.Pos()), off(e.Pos()), fn, -2)
+			add(off(e.End()), off(e.End()), fmt.Sprintf(", %q)", siteStr(fset, e.Pos())), -2)
+			st.R8++
+			usesSimrt = true
+		}
+		writes := map[ast.Expr]bool{}
+		ast.Inspect(f, func(n ast.Node) bool {
+			switch x := n.(type) {
+			case *ast.AssignStmt:
+				for _, l := range x.Lhs {
+					if ix, ok := l.(*ast.IndexExpr); ok {
+						writes[ix] = true
+					}
+				}
+			case *ast.IncDecStmt:
+				if ix, ok := x.X.(*ast.IndexExpr); ok {
+					writes[ix] = true
+				}
+			}
+			return true
+		})
+		ast.Inspect(f, func(n ast.Node) bool {
+			switch x := n.(type) {
+			case *ast.IndexExpr:
+				if isSharedMap(x.X) {
+					wrap(x.X, writes[x])
+				}
+			case *ast.RangeStmt:
+				if isSharedMap(x.X) {
+					wrap(x.X, false)
+				}
+			case *ast.CallExpr:
+				if id, ok := x.Fun.(*ast.Ident); ok && len(x.Args) >= 1 {
+					if _, isBuiltin := info.Uses[id].(*types.Builtin); isBuiltin && isSharedMap(x.Args[0]) {
+						switch id.Name {
+						case "delete":
+							wrap(x.Args[0], true)
+						case "len":
+							wrap(x.Args[0], false)
+						}
+					}
+				}
+			}
+			return true
+		})
+	}
 
 	if wantYield {
 		ast.Inspect(f, func(n ast.Node) bool {
